@@ -196,7 +196,9 @@ def cases(tier, seed):
             cs.append({"kind": "cif", "cell": 0, "lo": lo, "hi": lo + 48, "natoms": 3, "numfmt": f_})
     cs.append({"kind": "cif-history", "tier": tier})
     syms = pdb_symbols()
-    for lo in range(0, len(syms), 4):
+    for lo in range(len(syms) - 1, 191, -1):  # cubic symbols (costly multiplicities) one per case, first
+        cs.append({"kind": "cif-symbols", "lo": lo, "hi": lo + 1})
+    for lo in range(0, 192, 4):
         cs.append({"kind": "cif-symbols", "lo": lo, "hi": lo + 4})
     for lo in range(len(syms) - 1, -1, -1):  # one symbol per case, the costly cubic groups first
         cs.append({"kind": "pdb", "lo": lo, "hi": lo + 1, "tier": tier})
@@ -309,7 +311,7 @@ def check_case(case):
                 compare_atomlist(r, key, b.atomlist, exp, structure, "P21/c")
                 r.nontrivial.add(key)
                 r.states += 1
-                if (case["lo"] + ci) % 4 == 0 and NUMFMT == "fixed":
+                if (case["lo"] + ci) % 6 == 0 and NUMFMT == "fixed":
                     # the other documented ways of handing the same block to CIFread: by keyword with the block name, CIFopen + CIFread(),
                     # a block opened by this / by another builder passed as cifblk (keyword and positional), and a builder that has read
                     # ANOTHER file before (an occupancy-0.5 / multiplicity file) and is now given this block
@@ -373,8 +375,7 @@ def check_case(case):
                 no_ = O.name_to_setting()[key0][0]
                 try:
                     ops_ = O.exact_ops(sg.sg(sgno=no_))
-                    S_ = set(ops_)
-                    closed = len(S_) == len(ops_) and all(O.compose(a_, b_) in S_ for a_ in ops_ for b_ in ops_)
+                    closed = O.closed_fast(ops_)
                 except Exception:
                     closed = False
                 r.require(closed, "cif:symbol=%r:table-is-a-group" % key0, "the operations used to compute site multiplicities for this symbol form a group")
